@@ -62,7 +62,7 @@ def make_cases(tier, seed):
         lb = [[a * rng.uniform(0.9, 1.1), r + rng.uniform(-0.03, 0.03), z + rng.uniform(-0.03, 0.03), w * rng.uniform(0.93, 1.07)] for a, r, z, w in BASE[name]]
         nR, nZ = rng.choice([(65, 65), (33, 33), (81, 57)])
         cases.append({"id": len(cases) + 1, "family": name + "~", "lobes": lb, "nR": nR, "nZ": nZ, "sign": rng.choice([1, -1]), "psinorm_sol": rng.choice(SOLS[name]),
-                      "nx_inter_sep": 1 if name != "cdn" else 0})
+                      "nx_inter_sep": 1})         # (a perturbed double null is never exactly connected)
     return cases
 
 
